@@ -30,7 +30,7 @@ class C10(Prop):
         "error (C10_parse_tokens), parse_relaxed/from_str succeed with that tree and print back the text (C10_lossless, C10_from_str), and the "
         "accessors entries/relations/name/archqual/version/architectures/profiles/substvars report exactly the written content, negated "
         "architectures included, for EVERY well-formed field (C10_content, C10_full_holds: racc_view (racc (rtree_of f)) = rcontent f). "
-        "The reader is the model of /repo c2fa7c8 (version = IDENT (COLON IDENT)*); the code before the three fixes this property led to is kept as RelParsePre.v with "
+        "The reader is the model of /repo 4b18f7c (version = the run of IDENT and COLON tokens); the code before the three fixes this property led to is kept as RelParsePre.v with "
         "C10_prefix_epoch_refuted, C10_prefix_space_refuted, C10_prefix_arch_negation_refuted. PARTIAL: the lossy-reader clause is stated "
         "(C10_lossy_full, over any model of lossy::Relations::from_str) and decided on every run by the rel-doc stream on the implementation; "
         "it is instantiated with C14's model RelLossy.v (C10_lossy_RelLossy, checked on concrete fields by C10_lossy_ex) but not proved.")
@@ -54,7 +54,7 @@ class C10(Prop):
     assumptions = ["inputs are valid UTF-8 (Rust &str)",
                    "names, versions, architecture and profile names are non-empty strings over [A-Za-z0-9.+~-]; an epoch is a canonical decimal <= 4294967295",
                    "terms inside [...] and <...> are separated by at least one whitespace character; whitespace is SP, TAB or LF",
-                   "the lossless reader is the one of /repo c2fa7c8 or later (fixes 0eb8794, c2fa7c8, 43dd02f, 541b0f5)",
+                   "the lossless reader is the one of /repo 4b18f7c or later (fixes 0eb8794, c2fa7c8, 4b18f7c, 43dd02f, 541b0f5)",
                    "the upstream part of a version contains colons only when there is an epoch (Policy 5.6.12)"]
 
     def streams(self, tier, rng):
@@ -119,6 +119,6 @@ class C10(Prop):
 
     # no known finding classes: the three lossless defects (epoch / colons in a version, whitespace
     # before ')', '!' dropped by architectures()) and the four lossy ones found by this cone are
-    # fixed in /repo (0eb8794 c2fa7c8 43dd02f 541b0f5 / a2c6991 7cd890b 3e262bf); a regression is a VIOLATION
+    # fixed in /repo (0eb8794 c2fa7c8 4b18f7c 43dd02f 541b0f5 / a2c6991 7cd890b 3e262bf); a regression is a VIOLATION
 
 PROP = C10()
